@@ -283,3 +283,7 @@ package evm
 //@   nopanic
 //@   objinv ctrler != nil
 //@   modifies everything
+
+// ---- effect clauses (C01)
+//@ effect (*StateDBWrapper).Finish maprange#0: every iteration writes only the account of its own address (distinct addresses, distinct account objects) and the post-condition is stated over the whole tracked set (visited-set invariant, C17)
+//@ effect (*StateDBWrapper).revertAccessedObjAddr maprange#0: deletes exactly the entries tagged at or above the snapshot; the result is a function of the map, not of the order (C17)
